@@ -631,6 +631,28 @@ class BackendTranslator:
             return []
         if isinstance(n, ast.Pass):
             return []
+        if isinstance(n, ast.If) and isinstance(n.test, ast.UnaryOp) and isinstance(n.test.op, ast.Not) and self._lock_call(n.test.operand, "acquire"):
+            # if not self._lock.acquire_read_lock(timeout=timeout): raise TimeoutError(...)
+            w = self._lock_call(n.test.operand, "acquire")
+            r = n.body[0] if len(n.body) == 1 and not n.orelse else None
+            c = r.exc.func if isinstance(r, ast.Raise) and isinstance(r.exc, ast.Call) else getattr(r, "exc", None)
+            if not (isinstance(c, ast.Name) and c.id == "TimeoutError"):
+                raise Refuse("a failed lock acquisition must raise TimeoutError")
+            call = n.test.operand
+            exact = (not call.args and len(call.keywords) == 1 and call.keywords[0].arg == "timeout"
+                     and isinstance(call.keywords[0].value, ast.Name) and call.keywords[0].value.id == "timeout")
+            if not exact:
+                how = ast.unparse(call)[:80].replace('"', "'")
+                return [f"(BAcquireOdd {w} {cq_str(how)})"]
+            return [f"(BAcquire {w})"]
+        if isinstance(n, ast.Expr) and self._lock_call(n.value, "release"):
+            return [f"(BRelease {self._lock_call(n.value, 'release')})"]
+        if isinstance(n, ast.Assign) and len(n.targets) == 1 and self._self_attr(n.targets[0]) == "_state":
+            if isinstance(n.value, ast.Constant) and n.value.value in ("idle", "reading", "writing"):
+                return [f"(BSetState S{n.value.value.capitalize()})"]
+            raise Refuse("self._state = <not one of the three state names>")
+        if isinstance(n, ast.Try) and n.finalbody and not n.handlers and not n.orelse:
+            return [f"(BTryFinally {self.block(n.body)} {self.block(n.finalbody)})"]
         if isinstance(n, ast.If):
             return [f"(BIf {self.cond(n.test)} {self.block(n.body)} {self.block(n.orelse)})"]
         if isinstance(n, ast.Raise) and n.exc is not None:
@@ -725,6 +747,44 @@ class BackendTranslator:
         self.defined.append(name)
         return body, [a.arg for a in m.args.args[1:]]
 
+    def _lock_call(self, c, verb):
+        """self._lock.<verb>_{read,write}_lock(...)  ->  "false" (read) / "true" (write); the timeout is outside the model"""
+        if isinstance(c, ast.Call) and isinstance(c.func, ast.Attribute) and self._self_attr(c.func.value) == "_lock":
+            for kind, w in (("read", "false"), ("write", "true")):
+                if c.func.attr == f"{verb}_{kind}_lock":
+                    if verb == "release" and (c.args or c.keywords):
+                        raise Refuse("release_*_lock takes no argument")
+                    return w
+        return None
+
+    def _split(self, stmts):
+        """a statement list containing exactly one `yield self`, possibly inside try/finally blocks: (entry part, exit part)"""
+        has = lambda x: any(isinstance(y, (ast.Yield, ast.YieldFrom)) for y in ast.walk(x))
+        idx = [i for i, x in enumerate(stmts) if has(x)]
+        if len(idx) != 1:
+            raise Refuse("a session context manager must yield exactly once")
+        i = idx[0]; S = stmts[i]
+        pre, post = self.block(stmts[:i]), self.block(stmts[i + 1:])
+        if isinstance(S, ast.Expr) and isinstance(S.value, ast.Yield) and isinstance(S.value.value, ast.Name) and S.value.value.id == "self":
+            return pre, post
+        if isinstance(S, ast.Try) and S.finalbody and not S.handlers and not S.orelse:
+            e, x = self._split(S.body)
+            fin = self.block(S.finalbody)
+            return f"(BSeq {pre} (BTryReraise {e} {fin}))", f"(BSeq (BTryFinally {x} {fin}) {post})"
+        raise Refuse("the yield of a session context manager must be `yield self`, directly or inside try/finally blocks")
+
+    def session(self, name):
+        """@contextmanager def reading/writing(self, timeout=None)  ->  (entry program, exit program)"""
+        m = self.methods.get(name)
+        if m is None:
+            raise Refuse(f"method {name} not found")
+        d = m.decorator_list
+        if not (len(d) == 1 and isinstance(d[0], ast.Name) and d[0].id == "contextmanager"):
+            raise Refuse(f"{name} is not a plain @contextmanager generator")
+        if [a.arg for a in m.args.args] != ["self", "timeout"] or m.args.kwonlyargs or m.args.vararg or m.args.kwarg:
+            raise Refuse(f"{name}: parameters other than (self, timeout)")
+        return self._split(Translator._body(m))
+
 
 BMETHODS = ["update_keys", "_write", "_read", "flush", "put", "get", "begin_read", "end_read", "begin_write", "end_write"]
 
@@ -745,6 +805,12 @@ def translate_backend(repo):
         cname = {"put": "bput", "get": "bget"}.get(name, name.lstrip("_"))
         out.append(f"(* def {name}(self{''.join(', ' + p for p in params)}) *)")
         out.append(f"Definition {cname}_prog : bstmt :=\n  {body}.\n")
+    for name in ("reading", "writing"):
+        e, x = B.session(name)
+        out.append(f"(* @contextmanager def {name}(self, timeout=None): what runs before the `yield self` *)")
+        out.append(f"Definition {name}_enter_prog : bstmt :=\n  {e}.\n")
+        out.append(f"(* ... and what runs after it when the with-block ends normally *)")
+        out.append(f"Definition {name}_exit_prog : bstmt :=\n  {x}.\n")
     # inside the generated terms put/get of the BACKEND are referred to by their own names
     return "\n".join(out) + "\n"
 
